@@ -21,17 +21,24 @@ EXTENDS Integers, Sequences, TLC, FiniteSets, Json
 CONSTANTS Kinds,      \* default kinds in play (subset of 0..3)
           MaxPos      \* positional arguments 0..MaxPos
 SeqsUpTo(S, n) == UNION {[1..k -> S] : k \in 0..n}
-LLs == {ll \in [req : 0..2, opt : SeqsUpTo(Kinds, 2), rest : BOOLEAN, keys : SeqsUpTo(Kinds, 2), aux : 0..1] :
+\* aok: &allow-other-keys after the &key parameters (an undeclared key must then be accepted and ignored)
+LLs == {ll \in [req : 0..2, opt : SeqsUpTo(Kinds, 2), rest : BOOLEAN, keys : SeqsUpTo(Kinds, 2), aux : 0..1, aok : BOOLEAN] :
+          /\ (ll.aok => Len(ll.keys) > 0 /\ ~ll.rest)
           \* a default form that uses the first parameter needs one, and the first optional cannot use itself
           /\ (\A i \in 1..Len(ll.opt) : ll.opt[i] = 3 => (ll.req > 0 \/ i > 1))
           /\ (\A i \in 1..Len(ll.keys) : ll.keys[i] = 3 => (ll.req > 0 \/ Len(ll.opt) > 0))}
 KeyNames == {"k1", "k2", "kx"}
-Calls == [pos : 0..MaxPos, tail : SeqsUpTo(KeyNames, 2), dangling : BOOLEAN]
+\* nillast: the last positional argument is nil; nilkey: the value of the first keyword pair is nil (an argument that is
+\* supplied and nil is not an absent argument: no default)
+Calls == {c \in [pos : 0..MaxPos, tail : SeqsUpTo(KeyNames, 2), dangling : BOOLEAN, nillast : BOOLEAN, nilkey : BOOLEAN] :
+            /\ (c.nillast => c.pos > 0 /\ ~c.nilkey /\ ~c.dangling)
+            /\ (c.nilkey => Len(c.tail) > 0 /\ ~c.dangling)}
 IntV(n) == [k |-> "int", v |-> n]
 Nil == [k |-> "nil"]
 \* actual arguments: positional i -> i; key -> [k|->"key"]; the value of the j-th pair -> 10*j
-Args(c) == [i \in 1..c.pos |-> IntV(i)]
-           \o [i \in 1..2*Len(c.tail) |-> IF i % 2 = 1 THEN [k |-> "key", v |-> c.tail[(i+1) \div 2]] ELSE IntV(10 * (i \div 2))]
+Args(c) == [i \in 1..c.pos |-> IF c.nillast /\ i = c.pos THEN Nil ELSE IntV(i)]
+           \o [i \in 1..2*Len(c.tail) |-> IF i % 2 = 1 THEN [k |-> "key", v |-> c.tail[(i+1) \div 2]]
+                                           ELSE IF c.nilkey /\ i = 2 THEN Nil ELSE IntV(10 * (i \div 2))]
            \o (IF c.dangling THEN <<[k |-> "key", v |-> "k1"]>> ELSE <<>>)
 Drop(s, n) == IF n >= Len(s) THEN <<>> ELSE SubSeq(s, n + 1, Len(s))
 \* value of a default of the given kind when the first parameter has value p1
@@ -93,7 +100,7 @@ Bind(ll, c) ==
      \* (+ p1 100) with a first parameter that is not a number (a keyword passed positionally) signals at run time
      ELSE IF needsP1 /\ first.k # "int" THEN [ok |-> FALSE, why |-> "default-form-error", alt |-> FALSE, vals |-> <<>>, vals2 |-> <<>>]
      ELSE [ok |-> TRUE, why |-> "",
-           alt |-> hasKeys /\ unknown,             \* an undeclared key: an error is acceptable too
+           alt |-> hasKeys /\ unknown /\ ~ll.aok,  \* an undeclared key: an error is acceptable too, unless other keys are allowed
            vals |-> vals(FALSE),                   \* leftmost of duplicated keys
            vals2 |-> IF dup THEN vals(TRUE) ELSE vals(FALSE)]
 \* ---- design checks -------------------------------------------------------------------------------------------
@@ -106,13 +113,13 @@ Total == \A ll \in LLs, c \in Calls : LET b == Bind(ll, c) IN
 VARIABLE done
 Init == done = FALSE
 \* a reduced set of earlier definitions for the redefinition rows
-Prev == {[req |-> 2, opt |-> <<>>, rest |-> FALSE, keys |-> <<>>, aux |-> 0],
-         [req |-> 1, opt |-> <<1>>, rest |-> TRUE, keys |-> <<>>, aux |-> 0],
-         [req |-> 0, opt |-> <<>>, rest |-> FALSE, keys |-> <<2, 0>>, aux |-> 0]}
+Prev == {[req |-> 2, opt |-> <<>>, rest |-> FALSE, keys |-> <<>>, aux |-> 0, aok |-> FALSE],
+         [req |-> 1, opt |-> <<1>>, rest |-> TRUE, keys |-> <<>>, aux |-> 0, aok |-> FALSE],
+         [req |-> 0, opt |-> <<>>, rest |-> FALSE, keys |-> <<2, 0>>, aux |-> 0, aok |-> FALSE]}
 Next == /\ ~done /\ done' = TRUE
-        /\ \A ll \in LLs, c \in Calls :
+        /\ \A ll \in LLs : \A c \in {x \in Calls : ll.aok => \E i \in 1..Len(x.tail) : x.tail[i] = "kx"} :
              PrintT(ToJson([ll |-> ll, args |-> Args(c), exp |-> Bind(ll, c), prev |-> [none |-> TRUE]]))
-        /\ \A ll \in {x \in LLs : x.aux = 0 /\ Len(x.opt) <= 1 /\ Len(x.keys) <= 1}, c \in {x \in Calls : ~x.dangling /\ Len(x.tail) <= 1}, pv \in Prev :
+        /\ \A ll \in {x \in LLs : x.aux = 0 /\ ~x.aok /\ Len(x.opt) <= 1 /\ Len(x.keys) <= 1}, c \in {x \in Calls : ~x.dangling /\ ~x.nillast /\ ~x.nilkey /\ Len(x.tail) <= 1}, pv \in Prev :
              PrintT(ToJson([ll |-> ll, args |-> Args(c), exp |-> Bind(ll, c), prev |-> [none |-> FALSE, ll |-> pv]]))
 Inv == done \/ Total
 =============================================================================
